@@ -129,12 +129,48 @@ class MAGen:
                     b = a if (i == 0 or rng.random() < 0.5) else a.clone()
                     ag.add_action(b)
                     self.actions[ag.name].append(b)
+        # twins: an action called `twin` in both agents whose definitions DIFFER but share a content-equal variant
+        # (same preconditions, same unconditional effects and same effect conditions over fluents both agents resolve
+        # alike; the conditional effects / one precondition disjunct are agent specific)
+        self.twins = None
+        if rng.random() < 0.65:
+            self.add_twins(InstantaneousAction)
         M.add_agent(a1)
         M.add_agent(a2)
         for _ in range(rng.randint(1, 2)):
             M.add_goal(self.gen_bool(2, None, []))
         if not M.goals:
             M.add_goal(self.atom(None, []))
+
+    def add_twins(self, InstantaneousAction):
+        rng, em = self.rng, self.em
+        for ag in self.agents:      # every agent needs a fluent the other one does not own
+            other = [b for b in self.agents if b.name != ag.name][0]
+            if not [g for g in self.owned[ag.name] if not any(g == h for h in self.owned[other.name])]:
+                return
+        kind = rng.choice(["ce", "ce", "dnf", "both"])
+        self.twins = kind
+        common_pre = [self.gen_bool(1, None, [], True)] if rng.random() < 0.5 else []
+        common_disj = self.atom(None, [], True)
+        how, owner, f = rng.choice(self.atoms(None, True))
+        tgt = self.fexp(how, owner, f, [])
+        val = em.Bool(rng.random() < 0.6)
+        conds = [self.gen_bool(1, None, [], True) for _ in range(rng.randint(1, 2))]
+        vals = [em.Bool(rng.random() < 0.6) for _ in conds]
+        for ag in self.agents:
+            other = [b for b in self.agents if b.name != ag.name][0]
+            specific = [g for g in self.owned[ag.name] if not any(g == h for h in self.owned[other.name])]
+            a = InstantaneousAction("twin", OrderedDict(), self.env)
+            for c in common_pre:
+                a.add_precondition(c)
+            if kind in ("dnf", "both"):
+                a.add_precondition(em.Or(common_disj, self.fexp("plain", None, rng.choice(specific), [])))
+            a.add_effect(tgt, val)
+            if kind in ("ce", "both"):
+                for c, v in zip(conds, vals):
+                    a.add_effect(self.fexp("plain", None, rng.choice(specific), []), v, c)
+            ag.add_action(a)
+            self.actions[ag.name].append(a)
 
     # -- expressions visible to agent `ag` (None = problem level)
     def atoms(self, ag, shared_only=False):
@@ -336,6 +372,30 @@ def corpus():
     M.add_goal(Or(Dot(a1, y), Dot(a2, z)))
     M.add_goal(e)
     out.append(("same-named-actions", M))
+
+    # 5. same-named actions that DIFFER but share a content-equal variant: `act` (conditional effects: the branch in
+    #    which no condition holds is `not e => x := true` for both agents) and `go` (disjunctive precondition: the
+    #    disjunct `e` gives the same variant for both agents).  map_back must send each agent's copy to ITS action.
+    M, a1, a2 = base("same-named-actions-equal-variant")
+    x, y, z, e = Fluent("x"), Fluent("y"), Fluent("z"), Fluent("e")
+    M.ma_environment.add_fluent(e, default_initial_value=False)
+    for ag in (a1, a2):
+        ag.add_private_fluent(x, default_initial_value=False)
+    a1.add_public_fluent(y, default_initial_value=False)
+    a2.add_public_fluent(z, default_initial_value=False)
+    for ag, own in ((a1, y), (a2, z)):
+        act = InstantaneousAction("act")
+        act.add_effect(x, True)
+        act.add_effect(own, True, e)
+        ag.add_action(act)
+        go = InstantaneousAction("go")
+        go.add_precondition(Or(e, own))
+        go.add_effect(x, False)
+        ag.add_action(go)
+    M.add_agent(a1)
+    M.add_agent(a2)
+    M.add_goal(And(Dot(a1, y), Dot(a2, z)))
+    out.append(("same-named-actions-equal-variant", M))
     return out
 
 
@@ -581,6 +641,18 @@ class Comp:
                                      [fl.expr(d, M, ag.name) for d in cond_disjuncts(env, e.condition)])
                                     for e in a.effects if e.is_conditional()]
                 self.cases.append(case)
+        # ---- measured: pairs of content-equal variants (modulo the name) of DIFFERENT same-named actions of the two agents
+        def content(c):
+            return (tuple(p.name for p in c.parameters), frozenset(str(x) for x in c.preconditions),
+                    tuple(str(e) for e in c.effects))
+        self.cross_equal = 0
+        ags = list(M.agents)
+        if len(ags) == 2:
+            by = [{case["orig"].name: case for case in self.cases if case["agent"] == ag.name} for ag in ags]
+            for nm in set(by[0]) & set(by[1]):
+                if by[0][nm]["orig"] != by[1][nm]["orig"]:
+                    c2 = set(content(c) for c in by[1][nm]["comp"])
+                    self.cross_equal += sum(1 for c in by[0][nm]["comp"] if content(c) in c2)
         # ---- goals (problem level)
         self.g_orig = [fl.expr(g, M, None) for g in M.goals]
         self.g_comp = [fl.expr(g, M2, None) for g in M2.goals]
@@ -783,6 +855,7 @@ def run(ctx):
              "variants_per_action": {}, "conditional_effects": 0, "forall_effects": 0, "dot_atoms": 0,
              "disjunctive_goals": 0, "fake_fluents": 0, "ground_fluents": {}, "lenient_fresh_fluent_refs": 0,
              "shared_action_objects": 0, "same_named_actions_across_agents": 0,
+             "cross_agent_content_equal_variants_of_different_actions": {"ma_cerm": 0, "ma_dcrm": 0},
              "compile_raised": {}}
     for label, M in problems:
         names = [a.name for ag in M.agents for a in ag.actions]
@@ -827,6 +900,7 @@ def run(ctx):
         stats["ground_fluents"][str(ng)] = stats["ground_fluents"].get(str(ng), 0) + 1
         stats["fake_fluents"] += len(c.fake_fluents)
         stats["lenient_fresh_fluent_refs"] += c.flat.lenient_hits
+        stats["cross_agent_content_equal_variants_of_different_actions"][c.cname] += c.cross_equal
         for case in c.cases:
             owners.append((c, case))
             k = str(len(case["comp"]))
